@@ -78,6 +78,50 @@ CHECKS = {
     {"pkg": "./stage", "test": "TestC05", "shards": {"quick": 16, "thorough": 16}},
   ],
  },
+ "C20": {
+  "engine": "E-HIST",
+  "rule": "breadth-first search over receive/clean/prune/clock histories on the real stage.Stage + real receive log in virtual time; across every cleaning, pruning and clock step the staging tree is diffed and every removal is justified against deliveries and the receive log; states deduplicated on sandbox listing (with age buckets) + private stage state; non-trivial = at least two part receptions",
+  "level": "Every history within the bounds is executed on the real Stage; every removal made by CleanNow, the periodic cleaner or Prune is checked in every reached state, and after each removing step the in-flight transfers are completed with exactly the unacknowledged parts.",
+  "note": "Bounds: see coverage.parts[].bound. Long clock jumps are not taken while a held file's 10 s log-rescan timer is armed (held files are produced with predecessors that are in progress or failed instead). Cleaning concurrent with a transfer: E-SCHED part.",
+  "technique": "explicit-state breadth-first search over operation histories on the implementation in virtual time, invariant oracle",
+  "assumptions": ["single-P deterministic schedule between harness actions", "a partial without companion can only be compared by name"],
+  "parts": [
+    {"pkg": "./stage", "test": "TestC20", "shards": {"quick": 16, "thorough": 16}},
+  ],
+ },
+ "C04": {
+  "engine": "E-HIST",
+  "rule": "breadth-first search, per predecessor structure, over delivery/poll/clock/clean/restart histories on the real stage.Stage + real receive log in virtual time; the harness consumes the final directory after every step and compares the order of arrivals and of receive-log records with the announced predecessors; states deduplicated on sandbox listing + private stage state; non-trivial = at least two receptions",
+  "level": "Every history within the bounds, for every predecessor structure of the bound, is executed on the real Stage; ordering, the waiting answer and release after the predecessor's delivery are checked in every reached state.",
+  "note": "Bounds: see coverage.parts[].bound. A file that hangs off a cycle is exempt like a file on it when released by the cleaner. End-to-end ordering (sender side chain + receiver) is C10 and the E-ENV part.",
+  "technique": "explicit-state breadth-first search over operation histories on the implementation in virtual time, invariant oracle",
+  "assumptions": ["single-P deterministic schedule between harness actions", "log records of earlier runs are written directly in the log's format"],
+  "parts": [
+    {"pkg": "./stage", "test": "TestC04", "shards": {"quick": 16, "thorough": 16}},
+  ],
+ },
+ "C06": {
+  "engine": "E-HIST",
+  "rule": "breadth-first search over crash-free receive histories on the real stage.Stage + real receive log (states deduplicated on sandbox listing + private stage state); for every transition every crash point is enumerated: the receiver dies before the k-th file-system mutation of the step (k = 1..n) and at rest after it, the directory tree at that instant is recovered by a new Stage through the real Recover(); second crashes inside that recovery likewise; oracle = accurate partial listing, nothing unvalidated or misnamed in the final directory, delivered files known, and delivery of everything exactly once after an ideal resumption; non-trivial = at least two part receptions",
+  "level": "Every (history, crash point) pair within the bounds is executed on the real Stage and recovery code; crash points are all file-system mutations (vos shim), enumerated by index.",
+  "note": "Bounds: see coverage.parts[].bound. Crash model = process death (a prefix of the completed system calls survives); power loss (unsynced data) is out of scope because the code syncs only the log. Data written through an open handle is bracketed by the neighbouring path-level mutations.",
+  "technique": "explicit-state search over operation histories plus exhaustive crash-point enumeration (every file-system mutation) on the implementation, recovery run by the real code",
+  "assumptions": ["process-death crash model", "single-P deterministic schedule between harness actions"],
+  "parts": [
+    {"pkg": "./stage", "test": "TestC06", "shards": {"quick": 16, "thorough": 16}},
+  ],
+ },
+ "C02": {
+  "engine": "E-HIST",
+  "rule": "receiver half: breadth-first search over delivery/poll/clock/ageing/restart histories on the real stage.Stage + real receive log in virtual time, every positive poll answer compared with what is durably held validated; states deduplicated on sandbox listing + private stage state; non-trivial = at least two receptions",
+  "level": "Receiver half (positive answers only for durably held validated content): every history within the bounds is executed on the real Stage. Sender half (release only after such an answer): see parts.",
+  "note": "Bounds: see coverage.parts[].bound.",
+  "technique": "explicit-state breadth-first search over operation histories on the implementation in virtual time, invariant oracle",
+  "assumptions": ["single-P deterministic schedule between harness actions", "the version a poll refers to is the one transmitted completely last under that name"],
+  "parts": [
+    {"pkg": "./stage", "test": "TestC02R", "shards": {"quick": 16, "thorough": 16}},
+  ],
+ },
 }
 
 NOT_APPLICABLE = {}
